@@ -86,3 +86,102 @@ fn c02_array_blocks() {
 	std::mem::forget(r);
 }
 
+
+// ---- also removed (do not finish in 600 s: after serialize_seq returns, the sequence serializer's Kind is no longer
+// constant for CBMC and every arm of serialize_element - incl. the array arm's generic element serializer - is explored)
+
+/// sequence of `n` u32 (for duration) / u8 (for fixed, bytes) elements advertised as `adv`
+struct SeqOf<T: Copy + Serialize> {
+	adv: Option<usize>,
+	n: usize,
+	vals: [T; 4],
+}
+impl<T: Copy + Serialize> Serialize for SeqOf<T> {
+	fn serialize<S: Serializer>(&self, s: S) -> Result<S::Ok, S::Error> {
+		let mut seq = s.serialize_seq(self.adv)?;
+		let mut i = 0;
+		while i < self.n {
+			seq.serialize_element(&self.vals[i])?;
+			i += 1;
+		}
+		seq.end()
+	}
+}
+fn ser_value<T: Serialize>(node: &'static SchemaNode<'static>, allow_slow: bool, v: &T) -> Result<Vec<u8>, SerError> {
+	let mut config = ManuallyDrop::new(SerializerConfig::new_with_optional_schema(None));
+	if allow_slow {
+		config.allow_slow_sequence_to_bytes();
+	}
+	let mut state = ManuallyDrop::new(SerializerState::from_writer(Vec::new(), &mut config));
+	match v.serialize(state.serializer_overriding_schema_root(node)) {
+		Ok(()) => Ok(ManuallyDrop::into_inner(state).into_writer()),
+		Err(e) => Err(e),
+	}
+}
+
+//@ harness: c02_seq_to_duration
+//@   props: C02, C01
+//@   tier: quick
+//@   kind: complete
+//@   fn: ser::serializer::{DatumSerializer::serialize_seq, seq_or_tuple::SerializeSeqOrTupleOrTupleStruct::{serialize_element, end}} (Kind::Duration)
+//@   domain: sequences of 0..=4 u32 elements (all values), advertised length None or 0..=4
+//@   post: Ok iff exactly 3 elements are presented and the advertised length (if any) is 3; then 12 bytes = three little-endian u32 in order; any other count / advertisement => Err
+#[kani::proof]
+#[kani::unwind(7)]
+#[kani::stub(alloc::fmt::format, stub_format)]
+fn c02_seq_to_duration() {
+	static DU: SchemaNode<'static> = SchemaNode::Duration;
+	let n: usize = kani::any();
+	kani::assume(n <= 4);
+	let adv: Option<usize> = if kani::any() { Some(kani::any()) } else { None };
+	if let Some(a) = adv {
+		kani::assume(a <= 4);
+	}
+	let vals: [u32; 4] = kani::any();
+	let r = ser_value(&DU, false, &SeqOf { adv, n, vals });
+	let valid = n == 3 && adv.map_or(true, |a| a == 3);
+	kani::cover!(valid && adv.is_none(), "COV unadvertised triple");
+	match &r {
+		Ok(o) => {
+			assert!(valid, "OBL C02.duration.wrong_number_of_components_must_be_err");
+			assert!(o.len() == 12 && o[0..4] == spec_enc_f32_bits(vals[0]) && o[4..8] == spec_enc_f32_bits(vals[1]) && o[8..12] == spec_enc_f32_bits(vals[2]),
+				"OBL C02.duration.three_little_endian_u32");
+		}
+		Err(_) => assert!(!valid, "OBL C01.duration.triple_must_serialize"),
+	}
+	std::mem::forget(r);
+}
+
+//@ harness: c02_seq_to_fixed
+//@   props: C02, C01
+//@   tier: quick
+//@   kind: complete
+//@   fn: ser::serializer::{DatumSerializer::serialize_seq, seq_or_tuple::{SerializeSeqOrTupleOrTupleStruct (Kind::Fixed), ExtractU8Serializer}} (node fixed(3), slow sequence-to-bytes allowed / not allowed)
+//@   domain: sequences of 0..=4 u8 elements, advertised length None or 0..=4, allow_slow_sequence_to_bytes on/off
+//@   post: Ok iff allowed, exactly 3 elements presented, advertised length (if any) 3; then exactly those 3 bytes; otherwise Err (too few / too many elements never yield Ok)
+#[kani::proof]
+#[kani::unwind(7)]
+#[kani::stub(alloc::fmt::format, stub_format)]
+fn c02_seq_to_fixed() {
+	let n: usize = kani::any();
+	kani::assume(n <= 4);
+	let adv: Option<usize> = if kani::any() { Some(kani::any()) } else { None };
+	if let Some(a) = adv {
+		kani::assume(a <= 4);
+	}
+	let vals: [u8; 4] = kani::any();
+	let allow: bool = kani::any();
+	let r = ser_value(&FIXED3, allow, &SeqOf { adv, n, vals });
+	let valid = allow && n == 3 && adv.map_or(true, |a| a == 3);
+	kani::cover!(valid, "COV accepted");
+	kani::cover!(allow && n == 4 && adv.is_none(), "COV one element too many");
+	match &r {
+		Ok(o) => {
+			assert!(valid, "OBL C02.fixed_seq.wrong_length_or_not_allowed_must_be_err");
+			assert!(o.len() == 3 && o[..] == vals[..3], "OBL C02.fixed_seq.exactly_the_presented_bytes");
+		}
+		Err(_) => assert!(!valid, "OBL C01.fixed_seq.exact_length_must_serialize"),
+	}
+	std::mem::forget(r);
+}
+
